@@ -108,6 +108,24 @@ fn classify_block(stmts: &[syn::Stmt]) -> &'static str {
   }
 }
 
+/// methods called on a `Context` (receiver spelled `ctx`, `context`, `self.ctx`, `self.context`, `x.context` …)
+struct CtxCalls(std::collections::BTreeSet<String>);
+impl<'ast> Visit<'ast> for CtxCalls {
+  fn visit_item_mod(&mut self, m: &'ast syn::ItemMod) {
+    if !is_cfg_test(&m.attrs) {
+      syn::visit::visit_item_mod(self, m);
+    }
+  }
+  fn visit_expr_method_call(&mut self, n: &'ast syn::ExprMethodCall) {
+    use syn::__private::ToTokens;
+    let recv = n.receiver.to_token_stream().to_string().replace(' ', "");
+    if recv.ends_with("ctx") || recv.ends_with("context") || recv.ends_with("ctx()") || recv.ends_with("context()") {
+      self.0.insert(n.method.to_string());
+    }
+    syn::visit::visit_expr_method_call(self, n);
+  }
+}
+
 struct Impls {
   file: String,
   rows: Vec<(String, String, String, String)>, // file, impl type, method, class
@@ -167,11 +185,24 @@ fn main() {
   let mut files = vec![];
   rs_files(std::path::Path::new(&format!("{}/src", repo)), &mut files);
   let mut v = Impls { file: String::new(), rows: vec![], stops: vec![], cur_fn: vec![] };
+  let mut ctx_rows: Vec<(String, Vec<String>)> = vec![];
   for p in &files {
     let src = std::fs::read_to_string(p).unwrap();
     let f = syn::parse_file(&src).unwrap_or_else(|e| panic!("parse {}: {}", p.display(), e));
     v.file = p.strip_prefix(&repo).unwrap_or(p).to_string_lossy().trim_start_matches('/').to_string();
     v.visit_file(&f);
+    if v.file.starts_with("src/rules/") {
+      let mut c = CtxCalls(Default::default());
+      c.visit_file(&f);
+      ctx_rows.push((v.file.clone(), c.0.into_iter().collect()));
+    }
+  }
+  {
+    let mut t = String::from("/-! GENERATED by harness/src/bin/translate2.rs (syn): for every file of src/rules, the methods it calls on a `Context`. -/\nnamespace DL.Gen\n\ndef ctxMethodCalls : List (String × List String) := [\n");
+    let rows: Vec<String> = ctx_rows.iter().map(|(f, ms)| format!("  ({}, [{}])", lean_str(f), ms.iter().map(|m| lean_str(m)).collect::<Vec<_>>().join(", "))).collect();
+    t.push_str(&rows.join(",\n"));
+    t.push_str("\n]\n\nend DL.Gen\n");
+    write_if_changed(&format!("{}/CtxAccess.lean", out), &t);
   }
   let mut s = String::from("/-! GENERATED by harness/src/bin/translate2.rs (syn): every `visit_*` override of every `impl Visit for` in src/, with\nwhether each path through it recurses into the node's children (`always`), some traversal call exists (`sometimes`), or none (`never`). -/\nnamespace DL.Gen\n\n/-- (file, visitor type, method, class) for the overrides that do **not** always recurse -/\ndef visitNotAlways : List (String × String × String × String) := [\n");
   let rows: Vec<String> = v.rows.iter().filter(|r| r.3 != "always").map(|(a, b, c, d)| format!("  ({}, {}, {}, {})", lean_str(a), lean_str(b), lean_str(c), lean_str(d))).collect();
